@@ -330,6 +330,9 @@ func genTime(r *vh.Rng, t *xtype) gcase {
 		case 3:
 			s = vh.Pick(r, []int{60, 61, 99})
 		}
+		if h >= 24 {
+			canonical = false // 24:00:00 is a lexical form, not a canonical one
+		}
 		if r.Chance(6) && h < 10 {
 			fmt.Fprintf(&sb, "%d:%02d:%02d", h, m, s)
 			canonical = false
@@ -569,7 +572,11 @@ func (h *harness) generate(n int) {
 			if h.r.Chance(60) {
 				h.one(t, string(h.r.Mutate([]byte(c.s), hot)), false, false, "mutated")
 			}
+			if len(h.items) > 2000000 {
+				h.flush()
+			}
 		}
+		h.flush()
 	}
 	// white space collapse on its own
 	for i := 0; i < n; i++ {
